@@ -202,7 +202,32 @@ def run(ctx):
                             if all(g2.dominates(b2, rb) for rb in g2.return_blocks()):
                                 callee_sets.append((r, bb))
             key = "%s:filter-iff-compressed" % L.short(fid)
-            if conditional and callee_sets:
+            # a path that skips compression is fine if it removes the callee's /Filter entry before the data is written
+            removes = [bb for bb, s, c in L.str_args(fn, ["Dictionary::remove"]) if s == "Filter"]
+            removed_when_skipped = False
+            if conditional and callee_sets and removes:
+                # correlated branches on one configuration field: evaluate both valuations path-sensitively (P9b)
+                cfg_fields = set()
+                for b0, blk in enumerate(fn.blocks):
+                    if blk[1][0] == "sw":
+                        for st in blk[0]:
+                            for o in FL.rvalue_operands(st[2]):
+                                pl = FL.op_place(o)
+                                if pl and pl[1] and any(isinstance(x, list) and x[0] == "f" and x[2] == "config" for x in pl[1]):
+                                    cfg_fields.add(pl[1][-1][2] if isinstance(pl[1][-1], list) and pl[1][-1][0] == "f" else None)
+                cfg_fields.discard(None)
+                for fld in sorted(cfg_fields):
+                    for v in (False, True):
+                        pv = (lambda pl, _f=fld, _v=v: _v if isinstance(pl[1][-1], list) and pl[1][-1][0] == "f" and pl[1][-1][2] == _f else None)
+                        if cb in CF.reachable_assuming(fn, place_value=pv):
+                            continue
+                        # this valuation skips compression: the data must not be written before the removal
+                        if not (set(data_writes) & CF.reachable_assuming(fn, place_value=pv, avoid=removes)):
+                            removed_when_skipped = True
+            if removed_when_skipped:
+                ctx.ok("R2", key, "every path that skips compression removes the /Filter entry the dictionary was created with",
+                       fn.where(cb))
+            elif conditional and callee_sets:
                 ctx.violation("R2", key, "the stream data is compressed only on one branch (configuration `compress_streams`), but the "
                               "dictionary comes from %s which sets /Filter /FlateDecode unconditionally: with compression off the "
                               "cross-reference stream declares a filter its data does not have, and no reader can open the file"
@@ -290,8 +315,20 @@ def run(ctx):
             # also a normalisation `use_xref_streams |= use_object_streams` would be a write to config
             norm = [1 for f2, b2, ln in field_writes(facts, "WriterConfig", "use_xref_streams")] + \
                    [1 for f2, b2, ln in field_writes(facts, "WriterConfig", "use_object_streams") if (f2.parent or f2.id).startswith(W)]
-            if guarded or (norm and False):
-                ctx.ok("R4", key, "writer unreachable after object streams were flushed", fn.where())
+            # or: the call is infeasible once compressed_object_map is non-empty (path-sensitive, P9b)
+            if not guarded and calls:
+                def assume(b, t, _wd=wd):
+                    c = t[1]
+                    if not isinstance(c, dict) or not L.is_call_to(c, ["is_empty", "len"]):
+                        return None
+                    r = L.recv_of(_wd, t[2])
+                    if not r or "compressed_object_map" not in r[1]:
+                        return None
+                    return False if (c.get("p") or "").endswith("is_empty") else "nz"
+                if not (set(calls) & CF.reachable_assuming(wd, assume)):
+                    guarded = True
+            if guarded:
+                ctx.ok("R4", key, "writer unreachable once objects were packed into object streams", fn.where())
             else:
                 ctx.violation("R4", key, "%s never looks at compressed_object_map, and write_document reaches it after "
                               "flush_object_streams when `use_object_streams && !use_xref_streams` (both public WriterConfig fields, "
@@ -363,4 +400,24 @@ def check_format_sites(ctx, rule, module_filter=None, floor=30):
             ctx.violation(rule, key, "run-time text `%s` (%s) is formatted directly after `/` into a content/dictionary buffer without a name "
                           "escaper: a value containing whitespace, a delimiter or `#` yields an invalid or different name token"
                           % (arg, cl["type"]), where, {"via": cl["via"]})
-    ctx.floor(rule, "`/{name}` format sites feeding buffers", n, floor)
+    # names emitted through a name-escaping helper instead of a format site count towards the same population
+    escs = getattr(facts, "_name_escapers", None)
+    if escs is None:
+        escs = set(k for k, f in facts.fns.items() if f.kind != "Closure" and len(f.blocks) < 80 and
+                   any(p in ("&str", "&[u8]", "&std::string::String") for p in (f.params or [])) and
+                   TK.is_name_escaper_by_constants(facts, k))
+        facts._name_escapers = escs
+    for fn in facts.fns.values():
+        owner = fn.parent or fn.id
+        if owner in escs or (module_filter and not module_filter(owner)):
+            continue
+        if [r for m, r in NON_EMISSION_MODULES.items() if owner.startswith(m) or owner.startswith("<" + m)]:
+            continue
+        k = 0
+        for b, c, a, d, t, u in fn.calls():
+            if isinstance(c, dict) and c.get("r") in escs:
+                k += 1
+                n += 1
+                ctx.ok(rule, "name-site:%s:%s()#%d" % (owner, L.short(c["r"]), k), "name written through the escaper %s" % L.short(c["r"]),
+                       fn.where(b))
+    ctx.floor(rule, "name emission sites (`/{name}` format sites + name-escaper calls) feeding buffers", n, floor)
